@@ -179,7 +179,7 @@ def tlc_trace(ctx, cfg, module, trace_file, timeout=900):
 def trace_core(ctx, prop, runs):
     """impl -> spec: record random runs from the real crate, let TLC validate them against TraceCore."""
     tf = os.path.join(ctx.scratch, f"trace-{prop}.ndjson")
-    s = hv(ctx, "record", trace=tf, runs=runs)
+    s = hv(ctx, "record", trace=tf, runs=runs, large_every=(10 if ctx.quick else 15))
     ok, line_no = tlc_trace(ctx, f"trace/TraceCore{prop}.cfg", "trace/TraceCore.tla", tf)
     idx = s["extra"]["runs"]
     if ok:
